@@ -1,5 +1,6 @@
 import Bng.Drv.Common
 import Bng.Model.TokenBucket
+import Bng.Model.QosRace
 /-
   bngdrv component `qos` (C19): replays traces of the real qos.Manager (real kernel maps) + the natively
   compiled bpf/qos_ratelimit.c on the model, and runs the rate-limiter monitors on the IMPLEMENTATION's
@@ -18,6 +19,9 @@ import Bng.Model.TokenBucket
     pkt <e|i> <hexframe> <skblen>                     => <ret> [prio=N] [k=<keyhex>:<h|m>]
     poll <e|i> <hexframe> <skblen> <n> <gap_ns>       => [k=<keyhex>:<h|m>] <ret>x<n> …
     bucket <e|i> <keyhex>                             => <valhex> | none
+    race <sched> <setqos …|rmqos …> / <setqos …|rmqos …>   two calls at once, interleaved write by write (word over A, B)
+                                                      => <resA> / <resB> [blocked] n=<count> [e=…] [e-=…] [i=…] [i-=…]
+    wfault e|i on|off                                 => ok             the manager's handle of that map is write-protected
 
   Monitors (all fed from the implementation's observations only):
     over-admit, starved, zero-rate   per map entry the program actually used (`k=…:h`), with the rate/burst
@@ -27,10 +31,15 @@ import Bng.Model.TokenBucket
                                      definition the name had when setpolicy was called); after every control-plane call
                                      and at every packet to/from such an address the entry the program uses (bytes the
                                      implementation reported) must carry exactly that rate, burst and priority, in both
-                                     directions; a removed policy must no longer be enforced.
+                                     directions; a removed policy must no longer be enforced.  Two calls at once
+                                     (`race`) must end as one of them after the other: per address the entries (both or
+                                     none) and the subscriber count of one of the two orders.  A call that fails under
+                                     `wfault` must leave nothing behind; a removal must remove (findings
+                                     KF-qos-half-install / KF-qos-delete-ignored: the clause is carried by the verdict
+                                     about an entry of exactly the write-protected direction).
 -/
 namespace Bng.Drv.TokenBucketDrv
-open Bng Bng.Drv Bng.TokenBucket
+open Bng Bng.Drv Bng.TokenBucket Bng.QosRace
 
 /-- a policy as the control plane states it: down, up, burst (0 = default), priority -/
 structure Pol where
@@ -57,6 +66,10 @@ structure St where
   iEnt : AMap (Bool × Bytes) Bytes := []
   /-- who wrote the entry: `some ip` = the control plane for that address, `none` = a raw write -/
   iOrigin : AMap (Bool × Bytes) (Option Bytes) := []
+  /-- the manager's handles that are write-protected (`wfault`) -/
+  ro : Ro := {}
+  /-- policy monitor, spec side: the addresses the manager tracks (a successful Set adds, a Remove removes) -/
+  sTracked : List Bytes := []
 
 def dirOf (s : String) : Option Dir :=
   if s == "e" then some .egress else if s == "i" then some .ingress else none
@@ -240,13 +253,54 @@ def ctlOf (st : St) : Ctl := { maps := st.maps, subs := st.subs, pols := st.pols
 def withCtl (st : St) (c : Ctl) : St := { st with maps := c.maps, subs := c.subs, pols := c.pols }
 
 /-- observation of a call that rewrote the entries of `ip`: what changed, as the harness reports it -/
-def diffObs (old new : Maps) (ip : Bytes) : String :=
+def diffToks (old new : Maps) (ip : Bytes) : String :=
   let k := keyBytes ip
   let diff := fun (tag : String) (o n : AMap Bytes Bytes) =>
     match AMap.lookup n k with
     | some v => if AMap.lookup o k = some v then "" else s!" {tag}={hex k}:{hex v}"
     | none => ""
-  "ok" ++ diff "e" old.egress new.egress ++ diff "i" old.ingress new.ingress
+  diff "e" old.egress new.egress ++ diff "i" old.ingress new.ingress
+
+def diffObs (old new : Maps) (ip : Bytes) : String := "ok" ++ diffToks old new ip
+
+/-- the report of an operation that may have written and removed entries of several keys: per direction the changed
+    entries in the order of their key's hex text, then the removed ones (as the harness lists them) -/
+def diffAll (old new : Maps) (keys : List Bytes) : String :=
+  let ks := (keys.eraseDups).foldl (fun acc k =>
+    let rec ins : List Bytes → List Bytes
+      | [] => [k]
+      | y :: rest => if hex k < hex y then k :: y :: rest else y :: ins rest
+    ins acc) []
+  let dir := fun (tag : String) (o n : AMap Bytes Bytes) =>
+    String.join (ks.map fun k => match AMap.lookup n k with
+      | some v => if AMap.lookup o k = some v then "" else s!" {tag}={hex k}:{hex v}"
+      | none => "") ++
+    String.join (ks.map fun k => if (AMap.lookup o k).isSome && (AMap.lookup n k).isNone then s!" {tag}-={hex k}" else "")
+  dir "e" old.egress new.egress ++ dir "i" old.ingress new.ingress
+
+/-- `setqos a=… down=… up=… burst=… prio=…` / `rmqos a=…` as a call of the race model and as the monitor's policy -/
+def parseCall (toks : List String) : Option (Call × Option Pol) :=
+  match toks with
+  | "setqos" :: args =>
+    match (argOf args "a").bind parseHexBytes, (argOf args "down").bind String.toNat?,
+          (argOf args "up").bind String.toNat?, (argOf args "burst").bind String.toNat?,
+          (argOf args "prio").bind String.toNat? with
+    | some ip, some down, some up, some burst, some prio =>
+      if ip.length ≠ 4 ∨ args.length ≠ 5 ∨ down ≥ 2 ^ 64 ∨ up ≥ 2 ^ 64 ∨ burst ≥ 2 ^ 32 ∨ prio ≥ 256 then none else
+      some (.set { ip := ip, down := UInt64.ofNat down, up := UInt64.ofNat up, burst := UInt32.ofNat burst,
+                   prio := UInt8.ofNat prio }, some { down := down, up := up, burst := burst, prio := prio })
+    | _, _, _, _, _ => none
+  | ["rmqos", a] =>
+    match (kvTok a).bind fun (k, v) => if k == "a" then parseHexBytes v else none with
+    | some ip => if ip.length ≠ 4 then none else some (.remove ip, none)
+    | none => none
+  | _ => none
+
+def parseSched (w : String) : Option (List Bool) :=
+  if w.length > 12 then none else
+  w.toList.foldr (fun ch acc => match acc with
+    | none => none
+    | some l => if ch == 'A' then some (true :: l) else if ch == 'B' then some (false :: l) else none) (some [])
 
 /-- common tail of setqos / setpolicy: spec state, report, verdicts -/
 def afterApply (st : St) (ip : Bytes) (p : Pol) (itoks : List String) (what : String) :
@@ -254,8 +308,21 @@ def afterApply (st : St) (ip : Bytes) (p : Pol) (itoks : List String) (what : St
   let ok := itoks.head? == some "ok"
   let st1 := applyReport st ip itoks
   if ok then
-    let st2 := { st1 with sApplied := AMap.insert st1.sApplied ip p }
+    let st2 := { st1 with sApplied := AMap.insert st1.sApplied ip p,
+                          sTracked := if st1.sTracked.contains ip then st1.sTracked else ip :: st1.sTracked }
     (st2, checkApplied st2 ip p what)
+  else if st.ro.e || st.ro.i then
+    -- the call failed because a map handle is write-protected and said so: it must not have installed anything.
+    -- KF-qos-half-install: the egress bucket it wrote before the INGRESS Put failed stays
+    let wrote := itoks.filter fun t => t.startsWith "e=" || t.startsWith "i="
+    let vs := wrote.map fun t =>
+      ("policy", (if t.startsWith "e=" && st.ro.i && !st.ro.e then "KF-qos-half-install" else "none"),
+       s!"{what} for {hex ip} failed and left the entry {t} behind")
+    -- what it left behind has no control-plane meaning, and the statement about the address is void
+    let st2 := if wrote.isEmpty then st1 else
+      { st1 with sApplied := AMap.erase st1.sApplied ip,
+                 iOrigin := st1.iOrigin.map fun (dk, o) => if o == some ip then (dk, none) else (dk, o) }
+    (st2, vs)
   else (st1, [("policy", "none", s!"{what} for {hex ip} failed: {" ".intercalate itoks}")])
 
 def step (st : St) (toks : List String) (impl : String) : St × LineResult :=
@@ -272,9 +339,11 @@ def step (st : St) (toks : List String) (impl : String) : St × LineResult :=
         (st, { modelObs := "badop" }) else
       let q : QoS := { ip := ip, down := UInt64.ofNat down, up := UInt64.ofNat up,
                        burst := UInt32.ofNat burst, prio := UInt8.ofNat prio }
-      let c' := (ctlOf st).setQoS q
+      let (c', okM) := setQoSF st.ro (ctlOf st) q
+      let obs := if okM then diffObs st.maps c'.maps ip
+        else (if st.ro.e then "err failed_to_set_egress_QoS" else "err failed_to_set_ingress_QoS") ++ diffToks st.maps c'.maps ip
       let (st1, vs) := afterApply (withCtl st c') ip { down := down, up := up, burst := burst, prio := prio } itoks "SetSubscriberQoS"
-      (st1, { modelObs := diffObs st.maps c'.maps ip, viols := vs })
+      (st1, { modelObs := obs, viols := vs })
     | _, _, _, _, _ => (st, { modelObs := "badop" })
   | ["defpolicy", name, down, up, burst, prio] =>
     if !st.started then (st, { modelObs := "badop" }) else
@@ -311,8 +380,15 @@ def step (st : St) (toks : List String) (impl : String) : St × LineResult :=
     match (kvTok a).bind fun (k, v) => if k == "a" then parseHexBytes v else none with
     | some ip =>
       if ip.length ≠ 4 then (st, { modelObs := "badop" }) else
-      let (c', found) := (ctlOf st).setPolicy ip name
-      let obs := if found then diffObs st.maps c'.maps ip else s!"err policy_not_found:_{name}"
+      let (c', found) : Ctl × Bool := match AMap.lookup st.pols name with
+        | none => (ctlOf st, false)
+        | some p => ((setQoSF st.ro (ctlOf st) (p.qos ip)).1, true)
+      let okM := match AMap.lookup st.pols name with
+        | none => true
+        | some p => (setQoSF st.ro (ctlOf st) (p.qos ip)).2
+      let obs := if !found then s!"err policy_not_found:_{name}"
+        else if okM then diffObs st.maps c'.maps ip
+        else (if st.ro.e then "err failed_to_set_egress_QoS" else "err failed_to_set_ingress_QoS") ++ diffToks st.maps c'.maps ip
       let st0 := withCtl st c'
       -- the monitor's own view: the definition the name has NOW in the control-plane table
       match AMap.lookup st.sPols name with
@@ -331,18 +407,73 @@ def step (st : St) (toks : List String) (impl : String) : St × LineResult :=
     | some ip =>
       if ip.length ≠ 4 then (st, { modelObs := "badop" }) else
       let k := keyBytes ip
-      let c' := (ctlOf st).remove ip
-      let gone := fun (tag : String) (old : AMap Bytes Bytes) =>
-        if (AMap.lookup old k).isSome then s!" {tag}-={hex k}" else ""
-      let obs := "ok" ++ gone "e" st.maps.egress ++ gone "i" st.maps.ingress
+      let c' := removeF st.ro (ctlOf st) ip
+      let gone := fun (tag : String) (old new : AMap Bytes Bytes) =>
+        if (AMap.lookup old k).isSome && (AMap.lookup new k).isNone then s!" {tag}-={hex k}" else ""
+      let obs := "ok" ++ gone "e" st.maps.egress c'.maps.egress ++ gone "i" st.maps.ingress c'.maps.ingress
       let st1 := applyReport (withCtl st c') ip itoks
-      let st2 := { st1 with sApplied := AMap.erase st1.sApplied ip }
-      -- a removed policy must leave no control-plane entry behind
-      let left := [Dir.egress, Dir.ingress].filterMap fun d => (keyOfIp st2 d ip).map fun kk => s!"{dirTag d}:{hex kk}"
-      (st2, { modelObs := obs,
-              viols := if itoks.head? == some "ok" ∧ !left.isEmpty then
-                [("policy", "none", s!"RemoveSubscriberQoS({hex ip}) left entries {" ".intercalate left}")] else [] })
+      let st2 := { st1 with sApplied := AMap.erase st1.sApplied ip, sTracked := st1.sTracked.filter (· != ip) }
+      -- a removed policy must leave no control-plane entry behind.  KF-qos-delete-ignored: the entry of a direction
+      -- whose handle is write-protected stays (the Delete failed, its result is dropped)
+      let left := [Dir.egress, Dir.ingress].filterMap fun d => (keyOfIp st2 d ip).map fun kk => (d, kk)
+      let vs := if itoks.head? == some "ok" then left.map fun (d, kk) =>
+          ("policy", (if (match d with | .egress => st.ro.e | .ingress => st.ro.i) then "KF-qos-delete-ignored" else "none"),
+           s!"RemoveSubscriberQoS({hex ip}) left entries {dirTag d}:{hex kk}")
+        else []
+      -- what was left behind under a write-protected handle has no control-plane meaning any more
+      let st3 := if st.ro.e || st.ro.i then
+          { st2 with iOrigin := st2.iOrigin.map fun (dk, o) => if o == some ip then (dk, none) else (dk, o) }
+        else st2
+      (st3, { modelObs := obs, viols := vs })
     | none => (st, { modelObs := "badop" })
+  | ["wfault", d, on] =>
+    if !st.started then (st, { modelObs := "badop" }) else
+    if (d != "e" && d != "i") || (on != "on" && on != "off") then (st, { modelObs := "badop" }) else
+    let ro' : Ro := if d == "e" then { st.ro with e := on == "on" } else { st.ro with i := on == "on" }
+    ({ st with ro := ro' }, { modelObs := "ok" })
+  | "race" :: w :: rest =>
+    if !st.started || st.ro.e || st.ro.i then (st, { modelObs := "badop" }) else
+    let callsOf : Option (List String × List String) :=
+      match (rest.zipIdx.filter (fun p => p.1 == "/")).map (·.2) |>.getLast? with
+      | some i => some (rest.take i, rest.drop (i + 1))
+      | none => none
+    match parseSched w, callsOf.bind (fun p => parseCall p.1), callsOf.bind (fun p => parseCall p.2) with
+    | some sched, some (a, pa), some (b, pb) =>
+      let r := raceRun true (ctlOf st) a b sched
+      let obs := "ok / ok" ++ (if r.blocked then " blocked" else "") ++ s!" n={r.ctl.count}" ++
+        diffAll st.maps r.ctl.maps [keyBytes a.ip, keyBytes b.ip]
+      let st0 := withCtl st r.ctl
+      -- the judgment, from the implementation's line alone: both calls succeed, and per address the entries and the
+      -- subscriber count are those of call A followed by call B, or of B followed by A
+      let toksOf := fun (ip : Bytes) => itoks.filter fun t =>
+        (t.startsWith "e" || t.startsWith "i") && (t.splitOn (hex (keyBytes ip))).length > 1
+      let st1 := applyReport (applyReport st0 a.ip (toksOf a.ip)) b.ip (if b.ip == a.ip then [] else toksOf b.ip)
+      let implN := (itoks.findSome? fun t => if t.startsWith "n=" then (dropStr t 2).toNat? else none)
+      let okBoth := itoks.take 3 == ["ok", "/", "ok"]
+      -- candidate outcomes: (policy of a.ip, policy of b.ip)
+      let cands : List (Option Pol × Option Pol) :=
+        if a.ip == b.ip then [(pb, pb), (pa, pa)] else [(pa, pb)]
+      let fits := fun (ip : Bytes) (p : Option Pol) => match p with
+        | some pol => (checkApplied st1 ip pol "race").isEmpty
+        | none => (keyOfIp st1 .egress ip).isNone && (keyOfIp st1 .ingress ip).isNone
+      let trackedAfter := fun (c : Option Pol × Option Pol) =>
+        let t1 := (st1.sTracked.filter (· != a.ip)) ++ (if c.1.isSome then [a.ip] else [])
+        (t1.filter (· != b.ip)) ++ (if c.2.isSome then [b.ip] else [])
+      let good := cands.find? fun c => fits a.ip c.1 && fits b.ip c.2 && implN == some (trackedAfter c).length
+      match good with
+      | some c =>
+        let ap := fun (m : AMap Bytes Pol) (ip : Bytes) (p : Option Pol) => match p with
+          | some pol => AMap.insert m ip pol
+          | none => AMap.erase m ip
+        ({ st1 with sApplied := ap (ap st1.sApplied a.ip c.1) b.ip c.2, sTracked := trackedAfter c },
+         { modelObs := obs, viols := if okBoth then [] else [("policy", "none", s!"race {w}: a call failed: {impl}")] })
+      | none =>
+        ({ st1 with sApplied := AMap.erase (AMap.erase st1.sApplied a.ip) b.ip,
+                    sTracked := (st1.sTracked.filter (· != a.ip)).filter (· != b.ip),
+                    iOrigin := st1.iOrigin.map fun (dk, o) => if o == some a.ip || o == some b.ip then (dk, none) else (dk, o) },
+         { modelObs := obs,
+           viols := [("policy", "none", s!"race {w}: the buckets and the subscriber count after two overlapping calls are those of neither order of the two calls: {impl}")] })
+    | _, _, _ => (st, { modelObs := "badop" })
   | ["count"] =>
     if !st.started then (st, { modelObs := "badop" }) else
     (st, { modelObs := s!"{(ctlOf st).count}" })
